@@ -44,6 +44,8 @@ def arcovar_marple(x, order):
 
     #   ----------------------------------------------------- Initialization
     x = np.array(x)
+    if x.dtype.kind in 'iub':
+        x = x.astype(float)   # integer samples: no arithmetic in the sample type
     N = len(x)
 
 
